@@ -1,6 +1,7 @@
 import CodeLimit.Lemmas.SelectScan
 import CodeLimit.Lemmas.ExceptDec
 import CodeLimit.Gen.Excludes
+import CodeLimit.Model.Pipeline
 /-!
 # C11 - exactly the non-hidden, non-excluded files of supported languages are analysed
 
@@ -26,6 +27,16 @@ namespace CL.C11
 open CL.Sel
 
 variable (O : Oracles) (rn : Str) (ch : List Node)
+
+/-- **however the root is named** - relative, absolute, with `..` segments - the scan is the same:
+the model's root is the directory the path RESOLVES to, its own name (`rn`) is never looked at, and
+every key of the result is relative to it (`scanned_keys_exact`).  The spelling of the root enters
+the report in one place only, the string `root` (`str(path.resolve().absolute())`, the same for
+all spellings): `C06scan.two_scans_same_tree` (two scans with different `R.root` give reports that
+differ in that field, the identifier and the timestamp only).  That `scan_path` resolves the
+spellings to the same directory is the operating system's part (correspondence run: root given as
+relative / absolute / with `..`). -/
+theorem root_name_irrelevant (rn' : Str) : scanPath O (.dir rn ch) = scanPath O (.dir rn' ch) := rfl
 
 /-- **C11 (1): the scanned key set.** When the scan completes, the keys of the result are exactly
 the root-relative paths (components joined with `/`) of the qualifying files. -/
@@ -201,11 +212,36 @@ theorem default_excludes_plain_names :
     Gen.Excludes.defaultExcludes.all plainName = true ∧ Gen.Excludes.defaultExcludes.Nodup := by
   decide
 
-/-- the pattern list is built-in ++ configured ++ root `.gitignore`, read as `gitignore` patterns -/
+/-- the pattern list is built-in ++ configured ++ root `.gitignore`, read as `gitignore` patterns:
+the two generated constants (`translator/excludes.py` OBSERVES them: the real
+`generate_exclude_spec` is run with marker lines as configured and `.gitignore` lines, and the
+position of the marker groups in the recorded call of `PathSpec.from_lines` gives `sources`, its
+first argument gives `patternStyle`).  On their own these are equalities of strings; what they
+mean for the model is `exclude_lines_follow_sources`. -/
 theorem exclude_sources_pinned :
     Gen.Excludes.patternStyle = "gitignore" ∧
     Gen.Excludes.sources = ["builtin", "configured", "gitignore"] := by
   decide
+
+/-- the lines a source of `Gen.Excludes.sources` stands for: the built-in names (the generated
+list `DEFAULT_EXCLUDES`), the configured lines, the lines of the root `.gitignore` -/
+def sourceLines (configured : List Str) (gitignore : Option (List Str)) (source : String) : List Str :=
+  if source = "builtin" then Gen.Excludes.defaultExcludes.map Gi.str
+  else if source = "configured" then configured
+  else if source = "gitignore" then (match gitignore with | some ls => ls | none => [])
+  else []
+
+/-- **the model's exclusion lines are assembled in the observed order from the observed parts**:
+`Pipeline.excludeLines` (the list every end-to-end theorem hands to the pattern model, written by
+hand in `Model/Pipeline.lean`) is the concatenation, in the order of the GENERATED constant
+`Gen.Excludes.sources`, of the lines each source stands for, the built-in part being the GENERATED
+`DEFAULT_EXCLUDES`.  If the code assembled the list in another order, from other parts, or with
+another built-in list, the regenerated constants would change and this theorem would fail. -/
+theorem exclude_lines_follow_sources (configured : List Str) (gitignore : Option (List Str)) :
+    Pipeline.excludeLines configured gitignore =
+      Gen.Excludes.sources.flatMap (sourceLines configured gitignore) := by
+  cases gitignore <;>
+    simp [Pipeline.excludeLines, Gen.Excludes.sources, sourceLines, Gi.builtinNames]
 
 /-! ## non-vacuity: a concrete tree -/
 
@@ -264,6 +300,64 @@ were not analysed -/
 example : scanPath exO (.dir [] [.file (str "a.py") (str "ok"), .file (str "bad.py") (str "raise"),
       .file (str "c.py") (str "ok")]) = ⟨[str "a.py", str "bad.py"], .error .index⟩ := by
   decide +kernel
+
+/-! ### non-vacuity of `unselected_files_irrelevant`: two different trees with the same qualifying files -/
+
+def exA : List Node := [.file (str "a.py") (str "4444")]
+
+/-- `exA` plus a hidden file and a file of an unsupported language, in another listing order -/
+def exB : List Node :=
+  [.file (str ".h.py") (str "2"), .file (str "a.py") (str "4444"), .file (str "README.md") (str "3")]
+
+theorem fileAt_single {n c : Str} {p : List Str} {c' : Str} (h : FileAt [.file n c] p c') : p = [n] ∧ c' = c := by
+  cases h with
+  | here hm =>
+    simp only [List.mem_singleton, Node.file.injEq] at hm
+    exact ⟨by rw [hm.1], hm.2⟩
+  | under hm _ => simp at hm
+
+/-- the hypothesis `hsame` of `unselected_files_irrelevant` holds for `exA` and `exB` (they differ
+in a hidden file and an unsupported file), both trees are well-formed, so the theorem applies:
+both scans give the same dictionary -/
+theorem exA_exB_same : ∀ p c lang, Selected exO exA p c lang ↔ Selected exO exB p c lang := by
+  have hA : Selected exO exA [str "a.py"] (str "4444") 0 :=
+    ⟨.here (by simp [exA]), by decide +kernel, by decide +kernel, by decide +kernel⟩
+  have hB : Selected exO exB [str "a.py"] (str "4444") 0 :=
+    ⟨.here (by simp [exB]), by decide +kernel, by decide +kernel, by decide +kernel⟩
+  intro p c lang
+  constructor
+  · rintro ⟨hf, hv, he, hl⟩
+    obtain ⟨rfl, rfl⟩ := fileAt_single hf
+    have : lang = 0 := by
+      have h0 : exO.langOf (baseName [str "a.py"]) = some 0 := by decide +kernel
+      rw [h0] at hl
+      exact (Option.some.inj hl).symm
+    subst this
+    exact hB
+  · rintro ⟨hf, hv, he, hl⟩
+    cases hf with
+    | under hm _ => simp [exB] at hm
+    | here hm =>
+      simp only [exB, List.mem_cons, Node.file.injEq, List.not_mem_nil, or_false] at hm
+      rcases hm with ⟨rfl, rfl⟩ | ⟨rfl, rfl⟩ | ⟨rfl, rfl⟩
+      · exact absurd hv (by decide +kernel)
+      · have : lang = 0 := by
+          have h0 : exO.langOf (baseName [str "a.py"]) = some 0 := by decide +kernel
+          rw [h0] at hl
+          exact (Option.some.inj hl).symm
+        subst this
+        exact hA
+      · have h0 : exO.langOf (baseName [str "README.md"]) = none := by decide +kernel
+        rw [h0] at hl
+        cases hl
+
+example : wfDir exA = true ∧ wfDir exB = true ∧ exA.length ≠ exB.length ∧
+    (scanPath exO (.dir [] exA)).result = (scanPath exO (.dir (str "r") exB)).result := by
+  refine ⟨?_, ?_, ?_, ?_⟩ <;> decide +kernel
+
+example : ∀ files files', (scanPath exO (.dir [] exA)).result = .ok files →
+    (scanPath exO (.dir (str "r") exB)).result = .ok files' → files.Perm files' :=
+  (unselected_files_irrelevant exO [] exA (str "r") exB (by decide +kernel) (by decide +kernel) exA_exB_same).2
 
 end Example
 
